@@ -39,7 +39,7 @@ Definition predict (c : ccase) : outcome * exec_log :=
   match c_mode c with
   | 0%N => batch (fun l => l) Pregel (c_graph c) (fuel_of (c_graph c))
   | 1%N => batch (fun l => l) Dag (c_graph c) (fuel_of (c_graph c))
-  | _ => eager (fun _ => O) (c_graph c) (fuel_of (c_graph c))
+  | _ => fst (eager (fun _ => O) (c_graph c) (fuel_of (c_graph c)))
   end.
 
 Definition feeding (g : graph) (l : exec_log) : exec_log :=
